@@ -544,6 +544,89 @@ def run(ctx):
                                 expected=bad[2][:12], observed=bad[1][:12])
     ctx.count("reads_mixed_with_appends", nmix)
 
+    # ---- 2f. append_all() fed by a LAZY iterable that reads the same capture while it is consumed (copying selected records to the
+    #          end: `ddf.append_all(ddf.parse_msg(i) for i in idxs)`), on a file object handed in (BytesIO: no append mode to hide
+    #          behind): every stored record is still there afterwards and the copies follow, in order
+    nlazy = 0
+    for c in [c for c in caps if c["dom"] and len(c["ms"]) >= 3][:10 if quick else 120]:
+        ddf, bio = R.open(c["file"])
+        idxs = [rng.below(len(c["ms"])) for _ in range(rng.range(2, 5))]
+        try:
+            ddf.append_all(ddf.parse_msg(i) for i in idxs)
+            err = None
+        except Exception as e:  # noqa
+            err = type(e).__name__
+        want = list(c["file"])
+        for i in idxs:
+            want += list(R.DD.DATADump().dump_msg(U.real(c["ms"][i])))
+        got = list(bio.getvalue())
+        nlazy += 1
+        if err or got != want:
+            ctx.oracle_fail("append_all() consuming an iterable that reads the same capture does not leave the stored records followed by the copies"
+                            + (" (raised %s)" % err if err else ""), dict(initial_msgs=[U.short(m) for m in c["ms"]], copied_indices=idxs, file_len=len(got), expected_len=len(want)),
+                            key="c15-append-all-lazy", expected=want[-12:], observed=got[-12:])
+            break
+    ctx.count("lazy_append_all", nlazy)
+
+    # ---- 2e. whole histories on one object opened by path against the model (Model/DumpHist.v, theorems c15_history_*): appends
+    #          (valid and invalid messages), reads by index, full and sliced reads in any order, no flush by the caller anywhere;
+    #          every answer and the length of the file at the end must be the model's
+    hists = []
+    with tempfile.TemporaryDirectory(dir=common.WORK, prefix="c15h-") as td:
+        for k, c in enumerate([c for c in caps if c["dom"]][:12 if quick else 150]):
+            path = os.path.join(td, "hist%d.bin" % k)
+            with open(path, "wb") as fh:
+                fh.write(bytes(c["file"]))
+            ddf = R.DD.DATADumpFile(path)
+            wire, outs, trace, stored = [], [], [], len(c["ms"])
+            for _ in range(rng.range(4, 16)):
+                w = rng.below(6)
+                if w < 2:
+                    m = small_valid(rng) if rng.chance(5, 6) else rand_invalid(rng)
+                    wire += [10] + enc_msg(m)
+                    try:
+                        ddf.append_msg(U.real(m))
+                        outs += [-1, 100]
+                        stored += 1
+                    except ValueError:
+                        outs += [-1, 101]
+                    except Exception:  # noqa
+                        outs += [-1, 102]
+                    trace.append("append(%s)" % U.short(m).get("kind"))
+                elif w < 4:
+                    i = rng.choice([0, stored - 1, stored, stored + 1, rng.below(stored + 1)])
+                    wire += [11, i]
+                    try:
+                        outs += [-1] + R.one(ddf.parse_msg(i))
+                    except Exception:  # noqa
+                        outs += [-1, 3]
+                    trace.append("parse_msg(%d)" % i)
+                elif w == 4:
+                    wire += [12]
+                    try:
+                        outs += [-1] + R.pall(ddf.parse_all())
+                    except Exception:  # noqa
+                        outs += [-1, 3]
+                    trace.append("parse_all()")
+                else:
+                    sk, cn = rng.below(stored + 2), rng.choice([1, 2, 5, 100])
+                    wire += [13, sk, cn]
+                    try:
+                        outs += [-1] + R.pall(ddf.parse_all(skip=sk, count=cn))
+                    except Exception:  # noqa
+                        outs += [-1, 3]
+                    trace.append("parse_all(%d, %d)" % (sk, cn))
+            try:
+                ddf.f.flush()
+                ddf.f.close()
+            except Exception:  # noqa
+                pass
+            hists.append(dict(file=list(c["file"]), wire=wire, obs=[os.path.getsize(path)] + outs, trace=trace, initial=len(c["ms"])))
+    ctx.correspond("history on one DATADumpFile (opened by path)", "Dump", hists,
+                   lambda h: "w_dump_hist %d %s %s" % (len(h["file"]), fl(h["file"]), fl(h["wire"])),
+                   lambda h: h["obs"], show=lambda h: dict(initial_msgs=h["initial"], calls=h["trace"]))
+    ctx.count("histories_vs_model", len(hists))
+
     # ---- 3. truncation
     # exact comparison at sampled offsets (all record boundaries -1/0/+1, header boundaries +2/+3/+4, a few random ones)
     def cut_cases(c, p_all, p_idx, p_seek):
